@@ -14,7 +14,8 @@
  *     hash:m:r1,r2,..  subseq:T1,T2,..  set:<path>  scoped  balanced
  *     first:T (first token after the first paren)  & | ! (RPN operators)
  * Token arguments are percent-encoded.  If no rule matches: exit 0, no output.
- * Faults: sleep spin1 spin4 alloc abort segv kill forksleep
+ * Faults: sleep spin1 spin4 alloc abort segv kill forksleep burn4:<cpu_ms>
+ *   (burn4 uses that much CPU time on 4 threads and then behaves normally)
  * $VCMD_DELAY = "<seed>:<max_us>" adds a deterministic per-candidate delay.
  */
 #define _GNU_SOURCE
@@ -283,6 +284,23 @@ static void json_str(char **out, size_t *len, size_t *cap, const char *s) {
 
 static void *spin(void *arg) { (void)arg; volatile unsigned long x = 0; for (;;) x++; return NULL; }
 
+/* burn CPU on 4 threads until the *process* has used cpu_ms of CPU time, then
+ * return (the caller goes on and behaves normally) */
+static volatile int burn_stop = 0;
+static void *burner(void *arg) { (void)arg; volatile unsigned long x = 0; while (!burn_stop) x++; return NULL; }
+static void burn4(long cpu_ms) {
+  pthread_t t[3];
+  for (int i = 0; i < 3; i++) pthread_create(&t[i], NULL, burner, NULL);
+  volatile unsigned long x = 0;
+  for (;;) {
+    for (int k = 0; k < 200000; k++) x++;
+    struct timespec ts; clock_gettime(CLOCK_PROCESS_CPUTIME_ID, &ts);
+    if (ts.tv_sec * 1000 + ts.tv_nsec / 1000000 >= cpu_ms) break;
+  }
+  burn_stop = 1;
+  for (int i = 0; i < 3; i++) pthread_join(t[i], NULL);
+}
+
 static void do_fault(const char *f) {
   if (strcmp(f, "sleep") == 0) { for (;;) pause(); }
   if (strcmp(f, "spin1") == 0) { spin(NULL); }
@@ -378,7 +396,8 @@ int main(int argc, char **argv) {
     }
   }
 
-  if (fault) do_fault(fault);
+  if (fault && strncmp(fault, "burn4:", 6) == 0) burn4(atol(fault + 6));
+  else if (fault) do_fault(fault);
   fputs(out, stdout); fputs(err, stderr);
   fflush(stdout); fflush(stderr);
   return ex;
